@@ -872,7 +872,7 @@ func execOp(s *Sexp) string {
 			if len(s.List) > 6 {
 				mode = s.List[6].Atom
 			}
-			staleCapacity = mode != ""
+			staleCapacity = mode == "stale" || mode == "stale0"
 			var dst reflect.Value
 			if mode == "stale0" && len(s.List) > 7 {
 				full, perr := parseVal(s.List[7])
@@ -891,8 +891,24 @@ func execOp(s *Sexp) string {
 			if err != nil {
 				return "bad-op " + err.Error()
 			}
+			// (decm … PRIOR alias): equal pointer elements of the target's slices are made the SAME pointer
+			// (values are trees in the model; real programs share); what the old elements pointed to must
+			// not be written by the decode, since a re-used backing array is cleared first
+			var watched []reflect.Value
+			var before []string
+			if mode == "alias" {
+				aliasPointerSlices(dst.Elem(), &watched)
+				for _, w := range watched {
+					before = append(before, fmt.Sprintf("%#v", w.Elem().Interface()))
+				}
+			}
 			if err := c.unmarshalPtr(data, dst); err != nil {
 				return "err"
+			}
+			for i, w := range watched {
+				if now := fmt.Sprintf("%#v", w.Elem().Interface()); now != before[i] {
+					return "alias-written an element the target's slice used to point to was " + clip(before[i], 80) + " and is now " + clip(now, 80)
+				}
 			}
 			lastHeaderMsg = badSliceHeaders(dst.Elem())
 			return "ok " + FromReflect(dst.Elem(), c.td).String()
@@ -1181,6 +1197,49 @@ func truncateSlices(rv reflect.Value) {
 			if rv.Type().Field(i).IsExported() {
 				cut(rv.Field(i))
 			}
+		}
+	}
+}
+
+// aliasPointerSlices: in every slice of pointers reachable from rv, elements whose pointees are
+// equal to the first element's are replaced by the first element's pointer; all element pointers
+// are collected in watched.
+func aliasPointerSlices(rv reflect.Value, watched *[]reflect.Value) {
+	switch rv.Kind() {
+	case reflect.Ptr:
+		if !rv.IsNil() {
+			aliasPointerSlices(rv.Elem(), watched)
+		}
+	case reflect.Struct:
+		if rv.Type() == timeType {
+			return
+		}
+		for i := 0; i < rv.NumField(); i++ {
+			if rv.Type().Field(i).IsExported() {
+				aliasPointerSlices(rv.Field(i), watched)
+			}
+		}
+	case reflect.Map:
+		// map values are not addressable: leave them
+	case reflect.Slice:
+		if rv.Type().Elem().Kind() == reflect.Ptr && rv.Type().Elem().Elem().Kind() != reflect.Ptr {
+			var first reflect.Value
+			for i := 0; i < rv.Len(); i++ {
+				e := rv.Index(i)
+				if e.IsNil() {
+					continue
+				}
+				if !first.IsValid() {
+					first = e
+				} else if reflect.DeepEqual(first.Elem().Interface(), e.Elem().Interface()) {
+					e.Set(first)
+				}
+				*watched = append(*watched, reflect.ValueOf(e.Interface()))
+			}
+			return
+		}
+		for i := 0; i < rv.Len(); i++ {
+			aliasPointerSlices(rv.Index(i), watched)
 		}
 	}
 }
